@@ -190,12 +190,14 @@ func (c *Compiler) applyAugment(
 func (c *Compiler) expandModule(module *parse.Module) {
 
 	nod := module.GetModule()
+	verifPhase("expand", nod.Name())
 
 	// Expand Groupings
 	if err := c.expandGroupings(nod, nod, schema.Current); err != nil {
 		c.error(nod, err)
 	}
 	for _, sm := range module.GetSubmodules() {
+		verifPhase("subexpand", sm.Name())
 		if err := c.expandGroupings(nod, sm, schema.Current); err != nil {
 			c.error(sm, err)
 		}
